@@ -4,7 +4,7 @@ from __future__ import annotations
 
 import ast
 
-from tiv.astutil import body_walk, call_name, dotted, enclosing_stmt, guards, norm, short, stores_in, try_context, walk_local
+from tiv.astutil import body_walk, call_name, dotted, enclosing_func, enclosing_stmt, guards, norm, short, stores_in, try_context, walk_local
 from tiv.cfg import CFG, fmt_path
 from tiv.effects import emits, names_in
 from tiv.match import match_stmt, b2s, find_stmts, match_expr
@@ -162,20 +162,22 @@ def run(ck, m):
 
         if True:
             if isinstance(t, ast.Attribute) and t.attr == "_ti_z_index":
-                ck.ob("R4", st, "self._ti_get_z_index()" in norm(st.value), f"`{short(st, 60)}`: a widget's z-index must come from the allocator", stmt=f"{getattr(st, '_q', '')}: _ti_z_index from allocator")
+                fn_ = enclosing_func(st)
+                ck.ob("R4", st, "self._ti_get_z_index()" in norm(trace(fn_, st.value) if isinstance(fn_, ast.FunctionDef) else st.value), f"`{short(st, 60)}`: a widget's z-index must come from the allocator", stmt=f"{getattr(st, '_q', '')}: _ti_z_index from allocator")
     al = m.get(W, "UrwidImage._ti_get_z_index")
     n_acc = 0
     for n in m.walk(W):
         if isinstance(n, ast.Attribute) and n.attr in ("_ti_next_z_index", "_ti_free_z_indexes"):
             n_acc += 1
             q = getattr(enclosing_stmt(n), "_q", "")
-            base = norm(n.value)
+            fn_ = enclosing_func(n)
+            base = norm(trace(fn_, n.value) if isinstance(fn_, ast.FunctionDef) else n.value)       # (through a local alias such as `cls = __class__`)
             ck.ob("R4", enclosing_stmt(n), base in ("__class__", "UrwidImage"),
                   f"`{norm(n)}` in {q}: the allocator state must be accessed through __class__ - through cls/self/type(self) a subclass gets its own counter while the free list stays shared, "
                   "so two live widgets can receive the same z-index", stmt=f"{q}: {norm(n)} via __class__")
             if isinstance(n.ctx, ast.Store):
                 ck.ob("R4", enclosing_stmt(n), q.endswith("_ti_get_z_index"), f"`{norm(n)}` is written outside the allocator", stmt=f"{q}: only the allocator stores {n.attr}")
-    ck.expect(n_acc >= 5, "allocator state accesses not found")
+    ck.expect(n_acc >= 3, "allocator state accesses not found")
     for c in m.walk(W):
         if isinstance(c, ast.Call) and isinstance(c.func, ast.Attribute) and isinstance(c.func.value, ast.Attribute) and c.func.value.attr == "_ti_free_z_indexes":
             q = getattr(enclosing_stmt(c), "_q", "")
@@ -185,7 +187,7 @@ def run(ck, m):
                 ck.ob("R4", enclosing_stmt(c), q.endswith("_ti_get_z_index"), "indexes are taken from the free list only by the allocator", stmt="free list: pop() in allocator")
             else:
                 ck.ob("R4", enclosing_stmt(c), False, f"unexpected operation `{short(c, 40)}` on the free list", stmt=f"free list: {short(c, 40)}")
-    ov = next((s for s in al.body if isinstance(s, ast.If) and isinstance(s.body[0], ast.Raise) and "UrwidImageError" in norm(s.body[0])), None)
+    ov = next((s for s in body_walk(al) if isinstance(s, ast.If) and isinstance(s.body[0], ast.Raise) and "UrwidImageError" in norm(s.body[0])), None)
     st = next((s for t, s in stores_in(ast.Module(body=al.body, type_ignores=[])) if isinstance(t, ast.Attribute) and t.attr == "_ti_next_z_index"), None)
     ovt = trace(al, ov.test) if ov is not None else None
     ck.ob("R4", al, ov is not None and st is not None and ov.lineno < st.lineno and match_expr("__class__._ti_next_z_index == 2 ** 31", ovt) is not None,
